@@ -1120,9 +1120,10 @@ def expected_layout(name, L):
         return (1, 1)
     if name == 'bool':
         return (1, 1)
-    m = re.match(r'^([iuf])(\d+)$', name)
-    if not m:
+    # a built-in is printed under its own name, so it has to be a primitive type of Rust
+    if name not in ('u8', 'u16', 'u32', 'u64', 'u128', 'i8', 'i16', 'i32', 'i64', 'i128', 'f32', 'f64'):
         return None
+    m = re.match(r'^([iuf])(\d+)$', name)
     bits = int(m.group(2))
     kind = 'f' if m.group(1) == 'f' else 'i'
     tbl = L[kind]
